@@ -69,7 +69,8 @@ func TestConcurrentProgram(t *testing.T) {
 	if !strings.Contains(base, "abc[a b c]") || !strings.Contains(base, "once") || !strings.Contains(base, "0 false 0 0") || !strings.Contains(base, "1 2 x") || !strings.Contains(base, "true true") {
 		t.Fatalf("unexpected output: %s", base)
 	}
-	for _, want := range []string{"timeout-race 1s ready", "timeout-race 5s timeout", "stop true false", "reset-fired-after 2s", "beats 4", "afterfunc [one two]", "elapsed>= true true"} {
+	for _, want := range []string{"timeout-race 1s ready", "timeout-race 5s timeout", "stop true false", "reset-fired-after 2s", "beats 4", "afterfunc [one two]", "elapsed>= true true",
+		"ctx-fast <nil>", "ctx-slow context deadline exceeded", "ctx-cancel context canceled context canceled context canceled", "ctx-done true"} {
 		if !strings.Contains(base, want) {
 			t.Fatalf("simulated time: %q missing in: %s", want, base)
 		}
@@ -85,7 +86,8 @@ func TestConcurrentProgram(t *testing.T) {
 		if !strings.Contains(a, "select-sum 55 5") || !strings.Contains(a, "got hello") {
 			t.Fatalf("seed %d: select semantics broken: %s", seed, a)
 		}
-		for _, want := range []string{"timeout-race 1s ready", "timeout-race 5s timeout", "reset-fired-after 2s", "beats 4", "afterfunc [one two]", "elapsed>= true true"} {
+		for _, want := range []string{"timeout-race 1s ready", "timeout-race 5s timeout", "reset-fired-after 2s", "beats 4", "afterfunc [one two]", "elapsed>= true true",
+			"ctx-fast <nil>", "ctx-slow context deadline exceeded", "ctx-cancel context canceled context canceled context canceled", "ctx-done true"} {
 			if !strings.Contains(a, want) {
 				t.Fatalf("seed %d: simulated time: %q missing in: %s", seed, want, a)
 			}
